@@ -27,10 +27,13 @@ def gen(rng):
     b0, l0 = math.radians(rng.uniform(-85, 85)), math.radians(rng.uniform(-180, 180))
     n = rng.randint(4, 7)
     pts = {}
+    blh = {}
     for i in range(n):
         b = b0 + rng.uniform(-0.003, 0.003)
         l = l0 + rng.uniform(-0.003, 0.003) / max(0.1, math.cos(b0))
-        pts["G%d" % (i + 1)] = blh2xyz(b, l, rng.uniform(0, 2500))
+        h = rng.uniform(0, 2500)
+        pts["G%d" % (i + 1)] = blh2xyz(b, l, h)
+        blh["G%d" % (i + 1)] = (b, l, h)
     ids = list(pts)
     datum = rng.choice(["fixed", "fixed", "constr"])
     nfix = rng.randint(1, 2)
@@ -50,7 +53,49 @@ def gen(rng):
         obs.append(("distance", a, b_))
     for _ in range(rng.randint(0, 2)):
         obs.append(("xyz", rng.choice(ids), None))
-    return {"pts": pts, "status": status, "given": given, "perturb": perturb, "obs": obs, "datum": datum}
+    # terrestrial observations: zenith angles, horizontal angles, heights and height differences (these need
+    # the point's <geoid> undulation); antenna / instrument / target heights on a part of the observations
+    geoid = {pid: rng.choice([0.0, round(rng.uniform(-50, 50), 3)]) for pid in ids}
+    # a free network with terrestrial observations has no defect that could be predicted (verticals move with the
+    # network), so those are generated only where the datum is unambiguous
+    terrestrial = rng.random() < 0.6 and (datum == "fixed" or any(o[0] == "xyz" for o in obs))
+    if terrestrial:
+        for _ in range(rng.randint(0, 3)):
+            a, b_ = rng.sample(ids, 2)
+            obs.append(("zenith", a, b_))
+        for _ in range(rng.randint(0, 3)):
+            a, l_, r_ = rng.sample(ids, 3)
+            obs.append(("angle", a, (l_, r_)))
+        for _ in range(rng.randint(0, 2)):
+            obs.append(("height", rng.choice(ids), None))
+        for _ in range(rng.randint(0, 2)):
+            a, b_ = rng.sample(ids, 2)
+            obs.append(("hdiff", a, b_))
+    dh = [tuple(rng.choice([0.0, 0.0, round(rng.uniform(0.5, 2.5), 3)]) for _ in range(3)) for _ in obs]
+    return {"pts": pts, "blh": blh, "status": status, "given": given, "perturb": perturb, "obs": obs, "datum": datum, "geoid": geoid, "dh": dh,
+            "terrestrial": terrestrial}
+
+
+def normal(net, pid):
+    b, l, h = net["blh"][pid]
+    return (math.cos(b) * math.cos(l), math.cos(b) * math.sin(l), math.sin(b))
+
+
+def station(net, pid, dh):
+    u = normal(net, pid)
+    return tuple(net["pts"][pid][i] + dh * u[i] for i in range(3))
+
+
+def neu(net, pid, d):
+    b, l, h = net["blh"][pid]
+    n = -math.sin(b) * math.cos(l) * d[0] - math.sin(b) * math.sin(l) * d[1] + math.cos(b) * d[2]
+    e = -math.sin(l) * d[0] + math.cos(l) * d[1]
+    u = math.cos(b) * math.cos(l) * d[0] + math.cos(b) * math.sin(l) * d[1] + math.sin(b) * d[2]
+    return n, e, u
+
+
+def dh_tags(d, names=("from-dh", "to-dh")):
+    return "".join(" <%s>%r</%s>" % (t, v, t) for t, v in zip(names, d) if v)
 
 
 def cov3(rng):
@@ -70,25 +115,44 @@ def render(net, rng, order=None, covs=None):
     for pid in ids:
         st = net["status"][pid]
         o.append("<%s> <n/> <e/> <u/> </%s>\n" % ({"fixed": "fixed", "free": "free", "constr": "constr"}[st], {"fixed": "fixed", "free": "free", "constr": "constr"}[st]))
+        gd = " <geoid>%r</geoid>" % net["geoid"][pid] if net["terrestrial"] else ""
         if net["given"][pid]:
             d = net["perturb"][pid]
             x, y, z = pts[pid]
-            o.append("<point> <id>%s</id> <x>%r</x> <y>%r</y> <z>%r</z> </point>\n" % (pid, x + d * 0.6, y - d * 0.5, z + d * 0.7))
+            o.append("<point> <id>%s</id> <x>%r</x> <y>%r</y> <z>%r</z>%s </point>\n" % (pid, x + d * 0.6, y - d * 0.5, z + d * 0.7, gd))
         else:
-            o.append("<point> <id>%s</id> </point>\n" % pid)
+            o.append("<point> <id>%s</id>%s </point>\n" % (pid, gd))
     ob = list(enumerate(net["obs"]))
     if order:
         ob = [ob[i] for i in order["obs"]]
     for k, (t, a, b_) in ob:
         cv = covs[k]
+        dh = net["dh"][k]
         if t == "vector":
-            pa, pb = pts[a], pts[b_]
-            o.append("<obs>\n<vector> <from>%s</from> <to>%s</to> <dx>%r</dx> <dy>%r</dy> <dz>%r</dz> </vector>\n" % (a, b_, pb[0] - pa[0], pb[1] - pa[1], pb[2] - pa[2]))
+            pa, pb = station(net, a, dh[0]), station(net, b_, dh[1])
+            o.append("<obs>\n<vector> <from>%s</from> <to>%s</to> <dx>%r</dx> <dy>%r</dy> <dz>%r</dz>%s </vector>\n" % (a, b_, pb[0] - pa[0], pb[1] - pa[1], pb[2] - pa[2], dh_tags(dh)))
             o.append("<cov-mat> <dim>3</dim> <band>2</band> %s </cov-mat>\n</obs>\n" % " ".join("<flt>%r</flt>" % v for v in cv))
         elif t == "distance":
-            pa, pb = pts[a], pts[b_]
-            o.append("<obs>\n<distance> <from>%s</from> <to>%s</to> <val>%r</val> </distance>\n<cov-mat> <dim>1</dim> <band>0</band> <flt>%r</flt> </cov-mat>\n</obs>\n" % (
-                a, b_, math.sqrt(sum((pb[i] - pa[i]) ** 2 for i in range(3))), cv[0]))
+            pa, pb = station(net, a, dh[0]), station(net, b_, dh[1])
+            o.append("<obs>\n<distance> <from>%s</from> <to>%s</to> <val>%r</val>%s </distance>\n<cov-mat> <dim>1</dim> <band>0</band> <flt>%r</flt> </cov-mat>\n</obs>\n" % (
+                a, b_, math.sqrt(sum((pb[i] - pa[i]) ** 2 for i in range(3))), dh_tags(dh), cv[0]))
+        elif t == "zenith":
+            pa, pb = station(net, a, dh[0]), station(net, b_, dh[1])
+            n_, e_, u_ = neu(net, a, [pb[i] - pa[i] for i in range(3)])
+            za = math.atan2(math.hypot(n_, e_), u_)
+            o.append("<obs>\n<zenith> <from>%s</from> <to>%s</to> <val>%r</val> <stdev>%r</stdev>%s </zenith>\n</obs>\n" % (a, b_, za * 200 / math.pi, cv[0] / 10, dh_tags(dh)))
+        elif t == "angle":
+            pa, pl, pr = station(net, a, dh[0]), station(net, b_[0], dh[1]), station(net, b_[1], dh[2])
+            nl, el, _ = neu(net, a, [pl[i] - pa[i] for i in range(3)])
+            nr, er, _ = neu(net, a, [pr[i] - pa[i] for i in range(3)])
+            an = (math.atan2(er, nr) - math.atan2(el, nl)) % (2 * math.pi)
+            o.append("<obs>\n<angle> <from>%s</from> <left>%s</left> <right>%s</right> <val>%r</val> <stdev>%r</stdev>%s </angle>\n</obs>\n" % (
+                a, b_[0], b_[1], an * 200 / math.pi, cv[0] / 10, dh_tags(dh, ("from-dh", "left-dh", "right-dh"))))
+        elif t == "height":
+            o.append("<obs>\n<height> <id>%s</id> <val>%r</val> <stdev>%r</stdev> </height>\n</obs>\n" % (a, net["blh"][a][2] - net["geoid"][a], cv[0] / 5))
+        elif t == "hdiff":
+            o.append("<obs>\n<hdiff> <from>%s</from> <to>%s</to> <val>%r</val> <stdev>%r</stdev> </hdiff>\n</obs>\n" % (
+                a, b_, (net["blh"][b_][2] - net["geoid"][b_]) - (net["blh"][a][2] - net["geoid"][a]), cv[0] / 5))
         else:
             x, y, z = pts[a]
             o.append("<obs>\n<xyz><id>%s</id> <x>%r</x> <y>%r</y> <z>%r</z></xyz>\n<cov-mat> <dim>3</dim> <band>2</band> %s </cov-mat>\n</obs>\n" % (
@@ -171,6 +235,102 @@ def parse_pe(path):
     return {"m": m, "n": n, "A": A, "b": vec, "blocks": blocks, "S": [i - 1 for i in minx] if minx is not None else list(range(n)), "mk": len(minx) if minx is not None else -1}
 
 
+def hx(h):
+    """C99 hex double -> Coq float literal"""
+    return "(-%s)" % h[1:] if h.startswith("-") else h
+
+
+def run_g3lin(exe, text, workdir, name):
+    inp = os.path.join(workdir, name + ".xml")
+    open(inp, "w").write(text)
+    rc, out, err = vlib.sh([exe, inp], timeout=120)
+    d = {"points": {}, "obs": [], "rows": {}, "rejected": None, "exc": None, "rc": rc}
+    for line in out.split("\n"):
+        w = line.split()
+        if not w:
+            continue
+        if w[0] == "POINT":
+            d["points"][w[1]] = {"hex": w[2:8] + [w[11]], "idx": [int(x) for x in w[8:11]], "free": [c == "1" for c in w[12]],
+                                 "xyz": [float.fromhex(x) for x in w[2:5]], "bl": [float.fromhex(x) for x in w[5:7]]}
+        elif w[0] == "OBS":
+            d["obs"].append(w[1:])
+        elif w[0] == "ROW":
+            n = int(w[3])
+            d["rows"][int(w[1])] = (w[2], [(int(w[4 + 2 * k]), w[5 + 2 * k]) for k in range(n)])
+        elif w[0] == "REJECTED":
+            d["rejected"] = int(w[1])
+        elif w[0] == "exc":
+            d["exc"] = line
+    return d
+
+
+def coq_point(p):
+    h = p["hex"]
+    return "(mkpt %s %d %d %d %s %s %s)" % (" ".join(hx(x) for x in h), p["idx"][0], p["idx"][1], p["idx"][2],
+                                            *["true" if f else "false" for f in p["free"]])
+
+
+NPTS = {"vector": 2, "xyz": 1, "distance": 2, "zenith": 2, "height": 1, "hdiff": 2, "angle": 3}
+CTOR = {"vector": "OVector", "xyz": "OXYZ", "distance": "ODistance", "zenith": "OZenith", "height": "OHeight", "hdiff": "OHdiff", "angle": "OAngle"}
+
+
+def coq_cases(d):
+    """one Coq term (gobs, implementation rows) per active observation of a g3lin dump"""
+    out = []
+    for ob in d["obs"]:
+        kind = ob[0]
+        if kind not in NPTS:
+            continue
+        k = NPTS[kind]
+        pts = [d["points"].get(i) for i in ob[1:1 + k]]
+        if any(p is None for p in pts):
+            continue
+        vals = ob[1 + k:-1]
+        row = int(ob[-1])
+        dim = 3 if kind in ("vector", "xyz") else 1
+        rows = "[" + "; ".join("(%s, [%s])" % (hx(d["rows"][r][0]), "; ".join("(%d%%nat, %s)" % (i, hx(c)) for i, c in d["rows"][r][1]))
+                               for r in range(row, row + dim)) + "]"
+        out.append((kind, ob, "(%s %s %s, %s)" % (CTOR[kind], " ".join(coq_point(p) for p in pts), " ".join(hx(v) for v in vals), rows)))
+    return out
+
+
+def linearisation_defects(net, d):
+    """the implementation against itself: for consistent observations the absolute term at the approximate
+    coordinates is, to first order, the row of the design matrix applied to (true - approximate) position"""
+    dx = {}
+    delta = 0.0
+    for pid, p in d["points"].items():
+        diff = [net["pts"][pid][i] - p["xyz"][i] for i in range(3)]
+        delta = max(delta, math.sqrt(sum(v * v for v in diff)))
+        n_, e_, u_ = neu(net, pid, diff)
+        for i, v in zip(p["idx"], (n_, e_, u_)):
+            if i:
+                dx[i] = 1000 * v
+    bad = []
+    for ob in d["obs"]:
+        kind = ob[0]
+        if kind not in NPTS:
+            continue
+        k = NPTS[kind]
+        ids = ob[1:1 + k]
+        row = int(ob[-1])
+        dim = 3 if kind in ("vector", "xyz") else 1
+        leg = min([math.dist(net["pts"][ids[0]], net["pts"][j]) for j in ids[1:]] or [1.0])
+        if kind in ("zenith", "angle"):
+            tol = 1e-3 + 40 * 636620 * (delta / leg) ** 2 + 636620 * delta * 3 / 6.3e6
+        elif kind == "distance":
+            # the unit vector of the coefficients joins the marks, the absolute term the instruments (dh / leg)
+            tol = 1e-4 + 40 * 1000 * delta ** 2 / leg + 1000 * delta * 6 / leg
+        else:
+            tol = 1e-4 + 1000 * delta * delta / 6.3e6 * 10
+        for r in range(row, row + dim):
+            b = float.fromhex(d["rows"][r][0])
+            pred = sum(float.fromhex(c) * dx.get(i, 0.0) for i, c in d["rows"][r][1])
+            if abs(b - pred) > tol:
+                bad.append("%s %s: absolute term %.5f but row * (true - approximate) = %.5f (tolerance %.1e)" % (kind, " ".join(ids), b, pred, tol))
+    return bad
+
+
 def envelope_pivots(exe, pe):
     script = solver.problem_script(pe) + ["new base envelope", "envdiag"]
     rc, out, err = vlib.sh([exe], inp="\n".join(script) + "\n")
@@ -179,21 +339,37 @@ def envelope_pivots(exe, pe):
 
 
 def run(ctx):
-    ctx.check_proofs()
+    ctx.check_proofs(extra_files=["G3Run"])
     bdir = enet.binaries(ctx)
     exe = solver.build_harness(ctx, sanitize=False)
+    linexe = vlib.compile_harness("harness/g3lin.cpp", link_gama=True)
+    kcases = []
     rng = ctx.rng
-    n = 10 if ctx.quick else 100
+    n = 25 if ctx.quick else 400
     bad = 0
     for t in range(n):
         net = gen(rng)
-        covs = [cov3(rng) if o[0] != "distance" else [rng.choice([25.0, 100.0, 225.0])] for o in net["obs"]]
+        covs = [cov3(rng) if o[0] in ("vector", "xyz") else [rng.choice([25.0, 100.0, 225.0])] for o in net["obs"]]
         txt = render(net, rng, covs=covs)
         ctx.count(("c19", txt), nontrivial=True)
         ctx.hist("datum", net["datum"]); ctx.hist("observations", len(net["obs"]))
         runs = {a: run_g3(bdir, txt, ctx.scratch, "c19_%d" % t, a, pe=(a == "envelope")) for a in ALGS}
         if t == 0:
             ctx.sample({"points": len(net["pts"]), "datum": net["datum"], "observations": [o[0] for o in net["obs"]], "input_head": txt[:500]})
+        # K: the rows of the design matrix against the Gallina transliteration; the implementation against itself
+        lin = run_g3lin(linexe, txt, ctx.scratch, "c19lin_%d" % t)
+        if lin["exc"] is None and lin["rc"] == 0:
+            selfbad = linearisation_defects(net, lin)
+            if selfbad:
+                ctx.violation({"kind": "E:g3-linearisation", "input": txt, "differences": selfbad[:10]},
+                              "gama-g3 linearisation is not the derivative of its own absolute term: %s" % selfbad[0]); bad += 1
+                continue
+            for kind, ob, term in coq_cases(lin):
+                kcases.append((kind, ob, term, txt, net))
+                ctx.hist("K_observation_kind", kind)
+        elif lin["rc"] != 0:
+            ctx.violation({"kind": "K:g3-linearisation", "input": txt, "rc": lin["rc"]}, "the linearisation harness crashed (rc %d)" % lin["rc"]); bad += 1
+            continue
         fail = [a for a in ALGS if runs[a]["res"] is None]
         if fail:
             if len(fail) == len(ALGS):
@@ -226,7 +402,7 @@ def run(ctx):
         ref = runs[algs[0]]["res"]
         # statistics as predicted
         nfree = sum(3 for pid, s in net["status"].items() if s != "fixed")
-        neq = sum(3 if o[0] != "distance" else 1 for o in net["obs"])
+        neq = sum(3 if o[0] in ("vector", "xyz") else 1 for o in net["obs"])
         if ref["parameters"] != nfree:
             dd.append("parameters %d, expected %d" % (ref["parameters"], nfree))
         if ref["equations"] != neq:
@@ -236,7 +412,21 @@ def run(ctx):
                 dd.append("defect %d, expected %d" % (ref["defect"], exp_def))
         if ref["redundancy"] != ref["equations"] - ref["parameters"] + ref["defect"]:
             dd.append("redundancy %d != equations - parameters + defect" % ref["redundancy"])
-        if ref["ssq"] > 1e-3:
+        # gama-g3 linearises once: the approximate coordinates' error d enters distances, zenith and horizontal angles
+        # with d^2 / (length of the leg)
+        legs = []
+        for (t_, a_, b_) in net["obs"]:
+            if t_ in ("distance", "zenith"):
+                legs.append(math.dist(net["pts"][a_], net["pts"][b_]))
+            elif t_ == "angle":
+                legs += [math.dist(net["pts"][a_], net["pts"][b_[0]]), math.dist(net["pts"][a_], net["pts"][b_[1]])]
+        delta = max(net["perturb"].values())
+        if not all(net["given"].values()) and any(any(d) for d in net["dh"]):
+            delta = max(delta, 0.03)
+        nonlin = (delta ** 2 / min(legs)) if legs else 0.0
+        ctol = 5e-5 + 10 * nonlin
+        ctx.hist("nonlinearity_allowance_m", "%.0e" % (10 * nonlin))
+        if ref["ssq"] > 1e-3 + len(net["obs"]) * (1e4 * nonlin) ** 2:
             dd.append("sum of squares %.3e for consistent observations" % ref["ssq"])
         unconstrained_translation = net["datum"] == "constr" and not any(o[0] == "xyz" for o in net["obs"])
         for pid, p in net["pts"].items():
@@ -246,7 +436,7 @@ def run(ctx):
             if unconstrained_translation and net["perturb"][pid] > 0:
                 continue
             for i, c in enumerate("xyz"):
-                if q[c] is not None and abs(q[c] - p[i]) > 5e-5 and not unconstrained_translation:
+                if q[c] is not None and abs(q[c] - p[i]) > ctol and not unconstrained_translation:
                     dd.append("point %s %s adjusted %.5f, generating value %.5f" % (pid, c, q[c], p[i]))
         for a in algs[1:]:
             r2 = runs[a]["res"]
@@ -271,7 +461,7 @@ def run(ctx):
             for pid, q in ref["points"].items():
                 for c in "xyz":
                     v2 = r3["res"]["points"].get(pid, {}).get(c)
-                    if q[c] is not None and (v2 is None or abs(v2 - q[c]) > 5e-5):
+                    if q[c] is not None and (v2 is None or abs(v2 - q[c]) > ctol):
                         dd.append("record order changes point %s %s: %.6f vs %.6f" % (pid, c, v2 if v2 is not None else float("nan"), q[c]))
         # project equations dump re-adjusted by the general adjustment class
         try:
@@ -297,6 +487,26 @@ def run(ctx):
         if bad >= 3:
             break
     ctx.obligation(bad == 0, "E:g3")
+    # judge the K cases inside Coq
+    shard = 300
+    for s0 in range(0, len(kcases), shard):
+        v = "From Coq Require Import List Floats NArith.\nFrom Gama Require Import G3Run.\nImport ListNotations.\nLocal Open Scope float_scope.\n" \
+            "Definition cases := [\n%s\n].\n" % ";\n".join(c[2] for c in kcases[s0:s0 + shard]) + 'Goal True. idtac "@@OBS". Abort.\nEval vm_compute in bad_obs cases.\n'
+        rc, cout = vlib.coq_run(v, ctx.scratch, name="cases_c19_%d" % s0, timeout=900)
+        lst = vlib.parse_coq_list(cout, "@@OBS")
+        ctx.checker_cmds.append("coqc -Q coq Gama cases_c19_%d.v" % s0)
+        ctx.obligation(rc == 0 and lst == [], "K:g3-linearisation shard %d" % s0)
+        if rc != 0 or lst is None:
+            ctx.log(cout[-1000:])
+            ctx.violation({"kind": "K:g3-linearisation", "broken": "cases file did not evaluate", "tail": cout[-600:]}, "cases file failed", no_input=True)
+            continue
+        for x in lst[:4]:
+            kind, ob, term, txt, net = kcases[s0 + int(x.replace("%N", ""))]
+            # the self-consistency relation above found nothing on this input: model and code differ, no failing input
+            ctx.violation({"kind": "K:g3-linearisation", "input": txt, "observation": ob, "coq_case": term[:2000],
+                           "broken": "correspondence K:G3Run.rows vs Model::linearization (rows of the design matrix / absolute terms)"},
+                          "model and implementation disagree on the rows of a g3 %s observation" % kind, no_input=True)
+    ctx.count(("K-cases", len(kcases)), nontrivial=False)
     return ctx.finish(rule="generated ECEF networks (4-7 points anywhere on the WGS84 ellipsoid within ~40 km, heights 0..2500 m; fixed or constrained datum; vectors with full 3x3 "
                            "covariance, distances, observed xyz; given / perturbed / missing approximate coordinates), four algorithms, shuffled records, project-equation dump "
                            "re-adjusted by Adj; every network is a non-trivial case; distinct by content")
